@@ -31,12 +31,13 @@ var seedv int64
 
 // Case: a scenario (which issuer, which construction) plus a mutation of the encoded request.
 type Case struct {
-	Issuer  int    `json:"issuer"`        // issuer index that evaluates
-	Build   string `json:"build"`         // construction name
-	Mut     string `json:"mutation"`      // none | bit | trunc | ext
-	Arg     int    `json:"arg,omitempty"` // bit index / length / extension variant
-	Expect  string `json:"expect"`        // accept | reject
-	Variant int    `json:"variant,omitempty"`
+	Issuer      int    `json:"issuer"`        // issuer index that evaluates
+	Build       string `json:"build"`         // construction name
+	Mut         string `json:"mutation"`      // none | bit | trunc | ext
+	Arg         int    `json:"arg,omitempty"` // bit index / length / extension variant
+	Expect      string `json:"expect"`        // accept | reject
+	Variant     int    `json:"variant,omitempty"`
+	AfterHonest bool   `json:"after_an_accepted_request_on_a_private_issuer,omitempty"` // a private issuer object first serves an honest request, then this one
 }
 
 const registered = "origin.example"
@@ -46,8 +47,10 @@ type world struct {
 	att *type3.RateLimitedAttester
 }
 
-func buildWorld() *world {
-	mc.Entropy("c07-world")
+func buildWorld() *world { return buildWorldLabel("c07-world") }
+
+func buildWorldLabel(label string) *world {
+	mc.Entropy(label)
 	wd := &world{}
 	for i := 0; i < 3; i++ {
 		w := px.NewW3(i % 2) // issuers 0 and 2 share the RSA key but have different name keys
@@ -256,6 +259,23 @@ func mutate(b []byte, c Case) []byte {
 var wd *world
 
 func run(c Case) (string, *mc.Viol) {
+	wd := wd
+	if c.AfterHonest {
+		// a private issuer (same keys and registrations, deterministic name key): it serves an honest
+		// request first; whatever it remembers of that must not let the next request through
+		wd = buildWorldLabel("c07-world")
+		hc := Case{Issuer: c.Issuer, Build: "honest-client", Mut: "none", Expect: "accept", Variant: 7}
+		if c.Mut != "none" {
+			// a mutation of an accepted request: the issuer first serves exactly the untampered original
+			hc = c
+			hc.Mut, hc.Arg, hc.Expect, hc.AfterHonest = "none", 0, "accept", false
+		}
+		hreq, _ := wd.construct(hc)
+		mc.Entropy("c07-eval-honest-first")
+		if _, _, err := wd.w[c.Issuer].Issuer.Evaluate(hreq); err != nil {
+			return "honest-first-rejected", &mc.Viol{Sig: "issuer rejects an authentic request: honest-client", What: err.Error()}
+		}
+	}
 	req, st := wd.construct(c)
 	in := mutate(req, c)
 	mc.Entropy(fmt.Sprintf("c07-eval-%s-%d-%s-%d", c.Build, c.Issuer, c.Mut, c.Arg))
@@ -356,6 +376,19 @@ func main() {
 			cases = append(cases, Case{Issuer: is, Build: "crafted-unregistered-origin", Mut: "none", Expect: exp, Variant: v})
 			cases = append(cases, Case{Issuer: is, Build: "crafted-inner-request-truncated", Mut: "none", Expect: "reject", Variant: v})
 		}
+	}
+	// the rejecting classes again, each offered to a private issuer that has just served an honest request
+	n0 := len(cases)
+	for i := 0; i < n0; i++ {
+		c := cases[i]
+		if c.Issuer != 0 || c.Expect != "reject" {
+			continue
+		}
+		if c.Mut == "bit" && c.Arg%16 != 3 || c.Mut == "trunc" && c.Arg%16 != 5 {
+			continue
+		}
+		c.AfterHonest = true
+		cases = append(cases, c)
 	}
 	r.SetRule("per issuer: honest client requests and hand-crafted consistent requests (accepted), every single-bit change, every truncation and 5 extensions of each; hand-crafted and client-made requests for each rejecting class of the statement (unregistered / similar origin names, encryption to another issuer's name key with and without the victim's name-key id, associated data bound to another request key, signature by another key or over other contents, missing / short signature, truncated inner request, blinded message >= modulus). Cases are distinct (build, issuer, mutation) tuples; all are non-trivial")
 	r.Assume("crafted requests are assembled with go-hpke and crypto/ecdsa directly, independent of the client code; their expected verdict follows from their construction",
